@@ -1,35 +1,58 @@
-"""Exact small collections for the path interpreter.
+"""Exact small collections for the path interpreter, with a heap.
 
 A rule that has to follow *which* keys end up in a list or a dict (the store exchange: `keys.append(key)` ...
-`{k: True for k in keys}` ... `results[key] = ...` ... `[k for k, v in results.items() if not v]`) mixes this class into
-its domain.  Lists / tuples are TupleV (exact sequences of abstract values), dicts are DictV (insertion ordered pairs).
-`for` loops over an exact collection are unrolled exactly (an index per loop site lives in the state), comprehensions
-over one are evaluated per element.  Everything that is not understood degrades to TOP, never to a wrong exact value.
+`{k: True for k in keys}` ... `results[key] = ...`; HashClient's `client_batches[client.server].append(key)`) mixes this
+class into its domain.
 
-Aliasing is not tracked: a mutating method call (`append`, `extend`, `update`, item assignment) updates the *name* it
-is applied to.  A collection that was bound to a second name before being mutated is degraded to TOP on both names."""
+  * tuples are values: TupleV (exact sequence of abstract values);
+  * lists and dicts are *objects*: a `Ref(kind, site, n)` names the n-th object allocated at a source position, its
+    content lives in the state under ("heap", ref) as a TupleV (list) or DictV (dict, insertion-ordered pairs).
+    Mutation through any alias, through a nested subscript (`d[k].append(x)`, `d[k][j] = v`) or inside an inlined helper
+    (heap entries are tuple keys, so they flow through `Domain.inline`) therefore updates the one object;
+  * `collections.defaultdict(list | dict)` is a dict object whose missing keys are created on subscript load;
+  * generator expressions / iter() are one-shot iterators (GenV; ("gen", site) in the state = used up);
+  * `for` over an exact collection is unrolled exactly (an index per loop site in the state, reading the live
+    content), comprehensions are evaluated per element.
+
+Everything that is not understood degrades to TOP, never to a wrong exact value: an object that keeps growing is
+widened (content TOP) after MAX_LEN elements, an allocation site that keeps allocating yields TOP after MAX_ALLOC
+objects, a loop over an unknown iterable marks the state imprecise (`mark_imprecise`)."""
 import ast
 from collections import namedtuple
 
-from .paths import TOP, NONE, NOVALUE, Const, TupleV, Opaque, Exc, ORD
+from .paths import TOP, NONE, NOVALUE, Const, TupleV, Opaque, Exc, ORD, ClassRef, Env
 
-DictV = namedtuple("DictV", "items")  # tuple of (key value, value) pairs, insertion ordered, keys pairwise distinct
-Bound = namedtuple("Bound", "obj attr recv")  # a method of an exact collection; recv = receiver name or None
-GenV = namedtuple("GenV", "site items")  # a one-shot iterator (generator expression, iter(...)); ("gen", site) in the state = consumed
+DictV = namedtuple("DictV", "items")  # content of a dict object: tuple of (key value, value) pairs, keys pairwise distinct
+Ref = namedtuple("Ref", "kind site n")  # kind: 'list' | 'dict' | 'ddict:list' | 'ddict:dict'
+Bound = namedtuple("Bound", "obj attr")  # a method of a collection
+GenV = namedtuple("GenV", "site items")  # a one-shot iterator
 CONSUMERS = ("list", "tuple", "set", "frozenset", "sorted", "dict", "sum", "any", "all", "max", "min", "enumerate", "zip", "map", "filter", "reversed")
+MAX_LEN = 6
+MAX_ALLOC = 12
 
 
 def distinct(a, b):
     """Surely different abstract values (symbolic keys are Opaque and pairwise distinct by construction)."""
     if a == b:
         return False
-    if isinstance(a, Const) and isinstance(b, Const):
+    if isinstance(a, (Const, Opaque, ClassRef)) and isinstance(b, (Const, Opaque, ClassRef)):
         return True
-    if isinstance(a, Opaque) and isinstance(b, Opaque):
-        return True
-    if isinstance(a, (Const, Opaque)) and isinstance(b, (Const, Opaque)):
+    if isinstance(a, TupleV) and isinstance(b, TupleV):
+        return len(a.items) != len(b.items) or any(distinct(x, y) for x, y in zip(a.items, b.items))
+    if isinstance(a, TupleV) != isinstance(b, TupleV) and isinstance(a, (Const, Opaque, ClassRef, TupleV)) and isinstance(b, (Const, Opaque, ClassRef, TupleV)):
         return True
     return False
+
+
+def member(x, seq):
+    """x in seq for an exact sequence: True / False / None (unknown)."""
+    unknown = False
+    for y in seq:
+        if x == y and x is not TOP:
+            return True
+        if not distinct(x, y):
+            unknown = True
+    return None if unknown else False
 
 
 def dict_get(d, k):
@@ -43,21 +66,55 @@ def dict_get(d, k):
     return ("unknown",) if unknown else ("miss",)
 
 
-MAX_LEN = 6  # widening: a collection that keeps growing (a loop over an unknown iterable) becomes TOP
-
-
 def dict_set(d, k, v):
     items = list(d.items)
-    if len(items) >= MAX_LEN:
-        return TOP
     for i, (kk, vv) in enumerate(items):
         if kk == k and kk is not TOP:
             items[i] = (kk, v)
             return DictV(tuple(items))
         if not distinct(kk, k):
             return TOP
+    if len(items) >= MAX_LEN:
+        return TOP
     items.append((k, v))
     return DictV(tuple(items))
+
+
+def dict_del(d, k):
+    r = dict_get(d, k)
+    if r[0] == "hit":
+        return DictV(tuple((kk, vv) for kk, vv in d.items if kk != k))
+    return d if r[0] == "miss" else TOP
+
+
+def content(ref, state):
+    """TupleV / DictV, or None when the object's content is not known."""
+    c = state.get(("heap", ref), None) if isinstance(state, Env) else None
+    return c if isinstance(c, (TupleV, DictV)) else None
+
+
+def deref(v, state, depth=0):
+    """The pure value denoted by `v` in `state`: list objects become TupleV, dict objects DictV (recursively)."""
+    if depth > 6:
+        return TOP
+    if isinstance(v, Ref):
+        c = content(v, state)
+        if c is None:
+            return TOP
+        return deref(c, state, depth + 1)
+    if isinstance(v, TupleV):
+        return TupleV(tuple(deref(x, state, depth + 1) for x in v.items))
+    if isinstance(v, DictV):
+        return DictV(tuple((deref(k, state, depth + 1), deref(x, state, depth + 1)) for k, x in v.items))
+    return v
+
+
+def new_object(env, name, kind, cont):
+    """Bind `name` in the dict `env` (the initial state under construction) to a fresh list/dict object."""
+    ref = Ref(kind, ("arg", name), 0)
+    env[name] = ref
+    env[("heap", ref)] = cont
+    return ref
 
 
 class ExactCollections:
@@ -73,21 +130,50 @@ class ExactCollections:
         the domain's own `call` continues (it must not come back to coll_call with a GenV)."""
         return [("ok", TOP, state)]
 
-    # ---- construction -----------------------------------------------------------------
-    def make_list(self, items, node, state):
-        return TupleV(tuple(items))
+    # ---- heap ---------------------------------------------------------------------------------------
+    def alloc(self, state, node, kind, cont):
+        """-> (Ref | TOP, state)"""
+        site = (getattr(node, "lineno", 0), getattr(node, "col_offset", 0), kind.split(":")[0])
+        n = state.get(("nalloc", site), 0)
+        if n >= MAX_ALLOC or cont is TOP:
+            return TOP, state
+        ref = Ref(kind, site, n)
+        return ref, state.set(("nalloc", site), n + 1).set(("heap", ref), cont)
 
-    def make_dict(self, keys, values, node, state):
+    def put(self, state, ref, cont):
+        if isinstance(cont, TupleV) and len(cont.items) > MAX_LEN:
+            cont = TOP
+        return state.set(("heap", ref), cont)
+
+    # ---- construction -----------------------------------------------------------------
+    def make_list_s(self, items, node, state):
+        if any(isinstance(e, ast.Starred) for e in getattr(node, "elts", ())):
+            flat = []
+            for e, v in zip(node.elts, items):
+                if isinstance(e, ast.Starred):
+                    seq, state = self.consume(v, state)
+                    if seq is None:
+                        return TOP, state
+                    flat += list(seq)
+                else:
+                    flat.append(v)
+            items = flat
+        return self.alloc(state, node, "list", TupleV(tuple(items)))
+
+    def make_dict_s(self, keys, values, node, state):
         if len(keys) != len(values):
-            return TOP
+            return TOP, state
         d = DictV(())
         for k, v in zip(keys, values):
             d = dict_set(d, k, v)
             if d is TOP:
-                return TOP
-        return d
+                return TOP, state
+        return self.alloc(state, node, "dict", d)
 
     def truth(self, v, state=None):
+        if isinstance(v, Ref):
+            c = content(v, state) if state is not None else None
+            return (len(c.items) > 0) if c is not None else None
         if isinstance(v, DictV):
             return len(v.items) > 0
         if isinstance(v, (Bound, GenV)):
@@ -95,64 +181,152 @@ class ExactCollections:
         return super().truth(v, state)
 
     def never_none(self, v):
-        return isinstance(v, (DictV, Bound, GenV)) or super().never_none(v)
+        return isinstance(v, (Ref, DictV, Bound, GenV)) or super().never_none(v)
+
+    def compare(self, node, op, l, r, state):
+        if isinstance(op, (ast.In, ast.NotIn)):
+            seq = self._seq(r, state) if not isinstance(r, GenV) else None
+            if seq is not None:
+                m = member(l, seq)
+                if m is not None:
+                    return Const(m if isinstance(op, ast.In) else not m)
+                return TOP
+        if isinstance(op, (ast.Is, ast.IsNot)) and isinstance(l, Ref) and isinstance(r, Ref):
+            return Const((l == r) if isinstance(op, ast.Is) else (l != r))
+        return super().compare(node, op, l, r, state)
+
+    def binop_s(self, node, l, r, state):
+        if isinstance(node.op, ast.Add):
+            if isinstance(l, TupleV) and isinstance(r, TupleV):
+                return TupleV(l.items + r.items), state
+            if isinstance(l, Ref) and l.kind == "list":
+                cl = content(l, state)
+                seq = self._seq(r, state) if isinstance(r, (Ref, TupleV)) else None
+                if cl is not None and seq is not None:
+                    if getattr(node, "_aug", None) is not None:
+                        return l, self.put(state, l, TupleV(cl.items + tuple(seq)))  # `x += y` extends x in place
+                    return self.alloc(state, node, "list", TupleV(cl.items + tuple(seq)))
+                if getattr(node, "_aug", None) is not None:
+                    return l, self.put(state, l, TOP)
+                return TOP, state
+        return self.binop(node, l, r, state), state
 
     # ---- methods -------------------------------------------------------------------------
     def coll_attr(self, objval, node):
-        if isinstance(objval, (TupleV, DictV)):
-            recv = node.value.id if isinstance(node.value, ast.Name) else None
-            return Bound(objval, node.attr, recv)
+        if isinstance(objval, (Ref, TupleV, DictV)):
+            return Bound(objval, node.attr)  # (a bare DictV is an immutable mapping constant, e.g. a module-level table)
         return None
 
     def coll_call(self, node, fval, args, kwargs, state):
         """-> result list or None when this is not a collection operation."""
+        ok = lambda v, s=None: [("ok", v, state if s is None else s)]
         if isinstance(fval, Bound):
-            obj, attr, recv = fval
-
-            def mutate(new):
-                if recv is None:
-                    return [("ok", NONE, state)]
-                return [("ok", NONE, self.name_store(recv, new, state, node))]
-
+            obj, attr = fval
             if isinstance(obj, TupleV):
-                if attr == "append" and len(args) == 1:
-                    return mutate(TupleV(obj.items + (args[0],)) if len(obj.items) < MAX_LEN else TOP)
-                if attr == "extend" and len(args) == 1:
-                    return mutate(TupleV(obj.items + args[0].items) if isinstance(args[0], TupleV) and len(obj.items) + len(args[0].items) <= MAX_LEN else TOP)
-                if attr in ("copy",) and not args:
-                    return [("ok", obj, state)]
-                if attr in ("index", "count"):
-                    return [("ok", TOP, state)]
-                return mutate(TOP) if attr in ("insert", "pop", "remove", "clear", "sort", "reverse") else [("ok", TOP, state)]
+                return ok(TOP) if attr in ("index", "count") else None
             if isinstance(obj, DictV):
-                if attr == "items" and not args:
-                    return [("ok", TupleV(tuple(TupleV((k, v)) for k, v in obj.items)), state)]
-                if attr == "keys" and not args:
-                    return [("ok", TupleV(tuple(k for k, v in obj.items)), state)]
-                if attr == "values" and not args:
-                    return [("ok", TupleV(tuple(v for k, v in obj.items)), state)]
+                if attr not in ("items", "keys", "values", "get"):
+                    return ok(TOP)
+                cont, obj = obj, Ref("dict", ("const",), 0)
+            else:
+                cont = content(obj, state)
+            if cont is None:
+                # an object whose content is unknown: mutators keep it unknown, readers know nothing
+                return ok(NONE if attr in ("append", "extend", "insert", "remove", "clear", "sort", "reverse", "update") else TOP)
+            if obj.kind == "list":
+                items = cont.items
+                if attr == "append" and len(args) == 1:
+                    return ok(NONE, self.put(state, obj, TupleV(items + (args[0],))))
+                if attr == "extend" and len(args) == 1:
+                    seq, st = self.consume(args[0], state)
+                    return ok(NONE, self.put(st, obj, TupleV(items + tuple(seq)) if seq is not None else TOP))
+                if attr == "insert" and len(args) == 2 and isinstance(args[0], Const) and isinstance(args[0].v, int):
+                    lst = list(items)
+                    lst.insert(args[0].v, args[1])
+                    return ok(NONE, self.put(state, obj, TupleV(tuple(lst))))
+                if attr == "pop" and len(args) <= 1 and (not args or (isinstance(args[0], Const) and isinstance(args[0].v, int))):
+                    i = args[0].v if args else -1
+                    if not (-len(items) <= i < len(items)):
+                        return [("exc", Exc(ORD, "IndexError", node.lineno), state)]
+                    lst = list(items)
+                    v = lst.pop(i)
+                    return ok(v, self.put(state, obj, TupleV(tuple(lst))))
+                if attr == "remove" and len(args) == 1:
+                    m = member(args[0], items)
+                    if m is True:
+                        lst = list(items)
+                        lst.remove(args[0])
+                        return ok(NONE, self.put(state, obj, TupleV(tuple(lst))))
+                    if m is False:
+                        return [("exc", Exc(ORD, "ValueError", node.lineno), state)]
+                    return ok(NONE, self.put(state, obj, TOP)) + [("exc", Exc(ORD, "ValueError", node.lineno), state)]
+                if attr == "clear" and not args:
+                    return ok(NONE, self.put(state, obj, TupleV(())))
+                if attr == "reverse" and not args:
+                    return ok(NONE, self.put(state, obj, TupleV(tuple(reversed(items)))))
                 if attr == "copy" and not args:
-                    return [("ok", obj, state)]
-                if attr == "get" and 1 <= len(args) <= 2:
-                    r = dict_get(obj, args[0])
-                    if r[0] == "hit":
-                        return [("ok", r[1], state)]
-                    if r[0] == "miss":
-                        return [("ok", args[1] if len(args) == 2 else NONE, state)]
-                    return [("ok", TOP, state)]
-                if attr == "update" and len(args) == 1 and isinstance(args[0], DictV) and not kwargs:
-                    d = obj
-                    for k, v in args[0].items:
-                        d = dict_set(d, k, v) if d is not TOP else TOP
-                    return mutate(d)
-                if attr == "setdefault" and len(args) == 2:
-                    r = dict_get(obj, args[0])
-                    if r[0] == "hit":
-                        return [("ok", r[1], state)]
-                    if r[0] == "miss":
-                        return [("ok", args[1], self.name_store(recv, dict_set(obj, args[0], args[1]), state, node) if recv else state)]
-                    return mutate(TOP)
-                return mutate(TOP) if attr in ("pop", "popitem", "clear", "update", "setdefault") else [("ok", TOP, state)]
+                    return [("ok",) + self.alloc(state, node, "list", cont)]
+                if attr in ("index", "count"):
+                    return ok(TOP)
+                if attr == "sort":
+                    return ok(NONE, self.put(state, obj, TOP if len(items) > 1 else cont))
+                return ok(TOP)
+            # dict objects
+            if attr == "items" and not args:
+                return ok(TupleV(tuple(TupleV((k, v)) for k, v in cont.items)))
+            if attr == "keys" and not args:
+                return ok(TupleV(tuple(k for k, v in cont.items)))
+            if attr == "values" and not args:
+                return ok(TupleV(tuple(v for k, v in cont.items)))
+            if attr == "copy" and not args:
+                return [("ok",) + self.alloc(state, node, "dict", cont)]
+            if attr == "get" and 1 <= len(args) <= 2:
+                r = dict_get(cont, args[0])
+                if r[0] == "hit":
+                    return ok(r[1])
+                if r[0] == "miss":
+                    return ok(args[1] if len(args) == 2 else NONE)
+                return ok(TOP)
+            if attr == "update" and len(args) <= 1:
+                d = cont
+                pairs = []
+                if args:
+                    src = args[0]
+                    sc = content(src, state) if isinstance(src, Ref) else (src if isinstance(src, DictV) else None)
+                    if isinstance(sc, DictV):
+                        pairs = list(sc.items)
+                    elif isinstance(sc, TupleV) or isinstance(src, TupleV):
+                        seq = (sc or src).items
+                        if all(isinstance(p, TupleV) and len(p.items) == 2 for p in seq):
+                            pairs = [(p.items[0], p.items[1]) for p in seq]
+                        else:
+                            return ok(NONE, self.put(state, obj, TOP))
+                    else:
+                        return ok(NONE, self.put(state, obj, TOP))
+                pairs += [(Const(k), v) for k, v in kwargs.items() if not k.startswith("**")]
+                for k, v in pairs:
+                    d = dict_set(d, k, v) if d is not TOP else TOP
+                return ok(NONE, self.put(state, obj, d))
+            if attr == "setdefault" and 1 <= len(args) <= 2:
+                r = dict_get(cont, args[0])
+                dflt = args[1] if len(args) == 2 else NONE
+                if r[0] == "hit":
+                    return ok(r[1])
+                if r[0] == "miss":
+                    return ok(dflt, self.put(state, obj, dict_set(cont, args[0], dflt)))
+                return ok(TOP, self.put(state, obj, TOP))
+            if attr == "pop" and 1 <= len(args) <= 2:
+                r = dict_get(cont, args[0])
+                if r[0] == "hit":
+                    return ok(r[1], self.put(state, obj, dict_del(cont, args[0])))
+                if r[0] == "miss":
+                    return ok(args[1]) if len(args) == 2 else [("exc", Exc(ORD, "KeyError", node.lineno), state)]
+                return ok(TOP, self.put(state, obj, TOP))
+            if attr == "clear" and not args:
+                return ok(NONE, self.put(state, obj, DictV(())))
+            if attr == "popitem":
+                return ok(TOP, self.put(state, obj, TOP))
+            return ok(TOP)
         f = node.func
         if any(isinstance(a, GenV) for a in args):
             # a consumer of a one-shot iterator sees what is left of it and uses it up
@@ -168,85 +342,159 @@ class ExactCollections:
                 if r is not None:
                     return r
                 return self.consumed_call(node, fval, new_args, kwargs, state)
+        fname = f.id if isinstance(f, ast.Name) else (f.attr if isinstance(f, ast.Attribute) and isinstance(f.value, ast.Name) and f.value.id == "collections" else None)
+        if fname == "defaultdict" and len(args) <= 1 and not kwargs:
+            fac = node.args[0].id if node.args and isinstance(node.args[0], ast.Name) else None
+            if fac in ("list", "dict") or not node.args:
+                return [("ok",) + self.alloc(state, node, "ddict:%s" % fac if fac else "dict", DictV(()))]
+            return ok(TOP)
         if isinstance(f, ast.Name) and not kwargs:
-            if f.id == "iter" and len(args) == 1 and isinstance(args[0], (TupleV, DictV)):
-                return [("ok", GenV((node.lineno, node.col_offset), self._seq(args[0])), state)]
-            if f.id == "len" and len(args) == 1 and isinstance(args[0], (TupleV, DictV)):
-                return [("ok", Const(len(args[0].items)), state)]
-            if f.id in ("list", "tuple") and len(args) == 1:
-                if isinstance(args[0], TupleV):
-                    return [("ok", args[0], state)]
-                if isinstance(args[0], DictV):
-                    return [("ok", TupleV(tuple(k for k, v in args[0].items)), state)]
-            if f.id in ("list", "tuple") and not args:
-                return [("ok", TupleV(()), state)]
-            if f.id == "dict" and not args:
-                return [("ok", DictV(()), state)]
-            if f.id == "dict" and len(args) == 1 and isinstance(args[0], DictV):
-                return [("ok", args[0], state)]
-            if f.id == "dict" and len(args) == 1 and isinstance(args[0], TupleV) and all(isinstance(p, TupleV) and len(p.items) == 2 for p in args[0].items):
+            if f.id == "iter" and len(args) == 1:
+                seq = self._seq(args[0], state)
+                if seq is not None:
+                    return ok(GenV((node.lineno, node.col_offset), tuple(seq)))
+            if f.id == "len" and len(args) == 1:
+                seq = self._seq(args[0], state)
+                if seq is not None:
+                    return ok(Const(len(seq)))
+            if f.id == "tuple" and len(args) <= 1:
+                if not args:
+                    return ok(TupleV(()))
+                seq = self._seq(args[0], state)
+                if seq is not None:
+                    return ok(TupleV(tuple(seq)))
+            if f.id == "list" and len(args) <= 1:
+                if not args:
+                    return [("ok",) + self.alloc(state, node, "list", TupleV(()))]
+                seq = self._seq(args[0], state)
+                if seq is not None:
+                    return [("ok",) + self.alloc(state, node, "list", TupleV(tuple(seq)))]
+            if f.id == "dict" and len(args) <= 1:
+                if not args:
+                    return [("ok",) + self.alloc(state, node, "dict", DictV(()))]
+                src = args[0]
+                sc = content(src, state) if isinstance(src, Ref) else src
+                if isinstance(sc, DictV):
+                    return [("ok",) + self.alloc(state, node, "dict", sc)]
+                if isinstance(sc, TupleV) and all(isinstance(p, TupleV) and len(p.items) == 2 for p in sc.items):
+                    d = DictV(())
+                    for p in sc.items:
+                        d = dict_set(d, p.items[0], p.items[1]) if d is not TOP else TOP
+                    return [("ok",) + self.alloc(state, node, "dict", d)]
+            if f.id == "zip" and len(args) == 2:
+                a, b = self._seq(args[0], state), self._seq(args[1], state)
+                if a is not None and b is not None:
+                    return ok(TupleV(tuple(TupleV((x, y)) for x, y in zip(a, b))))
+            if f.id == "enumerate" and len(args) == 1:
+                a = self._seq(args[0], state)
+                if a is not None:
+                    return ok(TupleV(tuple(TupleV((Const(i), x)) for i, x in enumerate(a))))
+            if f.id in ("all", "any") and len(args) == 1:
+                a = self._seq(args[0], state)
+                if a is not None:
+                    ts = [self.truth(x, state) for x in a]
+                    if f.id == "all":
+                        res = False if any(t is False for t in ts) else (True if all(t is True for t in ts) else None)
+                    else:
+                        res = True if any(t is True for t in ts) else (False if all(t is False for t in ts) else None)
+                    return ok(Const(res) if res is not None else TOP)
+            if f.id in ("sorted", "reversed", "set", "frozenset") and args and self._seq(args[0], state) is not None:
+                return ok(TOP)
+        if isinstance(f, ast.Attribute) and f.attr == "fromkeys" and isinstance(f.value, ast.Name) and f.value.id == "dict" and 1 <= len(args) <= 2:
+            seq = self._seq(args[0], state)
+            if seq is not None:
                 d = DictV(())
-                for p in args[0].items:
-                    d = dict_set(d, p.items[0], p.items[1]) if d is not TOP else TOP
-                return [("ok", d, state)]
-            if f.id == "zip" and len(args) == 2 and all(isinstance(a, TupleV) for a in args) and len(args[0].items) == len(args[1].items):
-                return [("ok", TupleV(tuple(TupleV((a, b)) for a, b in zip(args[0].items, args[1].items))), state)]
-            if f.id == "enumerate" and len(args) == 1 and isinstance(args[0], TupleV):
-                return [("ok", TupleV(tuple(TupleV((Const(i), a)) for i, a in enumerate(args[0].items))), state)]
-            if f.id in ("sorted", "reversed", "set", "frozenset") and args and isinstance(args[0], (TupleV, DictV)):
-                return [("ok", TOP, state)]
-        if isinstance(f, ast.Attribute) and f.attr == "fromkeys" and isinstance(f.value, ast.Name) and f.value.id == "dict" and 1 <= len(args) <= 2 and isinstance(args[0], TupleV):
-            d = DictV(())
-            for k in args[0].items:
-                d = dict_set(d, k, args[1] if len(args) == 2 else NONE) if d is not TOP else TOP
-            return [("ok", d, state)]
+                for k in seq:
+                    d = dict_set(d, k, args[1] if len(args) == 2 else NONE) if d is not TOP else TOP
+                return [("ok",) + self.alloc(state, node, "dict", d)]
         return None
 
     def unpack(self, value, n, node, state):
         seq = self._seq(value, state) if not isinstance(value, GenV) else None
-        if seq is not None and not isinstance(value, DictV):
+        if seq is not None and not (isinstance(value, Ref) and value.kind != "list"):
             if len(seq) != n:
                 return None, True
             return list(seq), False
         return super().unpack(value, n, node, state)
 
     # ---- subscripts -----------------------------------------------------------------------
-    def coll_subscript_load(self, objval, idxval, node, state):
-        """-> (value, may_raise) or None"""
+    def subscript_load_s(self, objval, idxval, node, state):
+        """-> (value, may_raise, state)"""
         if isinstance(objval, DictV):
             r = dict_get(objval, idxval)
+            return (r[1], False, state) if r[0] == "hit" else ((NOVALUE, "KeyError", state) if r[0] == "miss" else (TOP, True, state))
+        if isinstance(objval, Ref) and objval.kind != "list":
+            cont = content(objval, state)
+            if cont is None:
+                return TOP, True, state
+            r = dict_get(cont, idxval)
             if r[0] == "hit":
-                return r[1], False
+                return r[1], False, state
             if r[0] == "miss":
-                return NOVALUE, "KeyError"
-            return TOP, True
-        if isinstance(objval, TupleV) and isinstance(node.slice, ast.Slice):
-            from .model import fold, NotConst
+                if objval.kind.startswith("ddict:"):
+                    fac = objval.kind.split(":")[1]
+                    v, st = self.alloc(state, node, "list" if fac == "list" else "dict", TupleV(()) if fac == "list" else DictV(()))
+                    if v is TOP:
+                        return TOP, False, self.put(st, objval, TOP)
+                    return v, False, self.put(st, objval, dict_set(cont, idxval, v))
+                return NOVALUE, "KeyError", state
+            return TOP, True, state
+        seq = None
+        if isinstance(objval, TupleV):
+            seq = objval.items
+        elif isinstance(objval, Ref):
+            c = content(objval, state)
+            seq = c.items if c is not None else None
+            if seq is None:
+                return TOP, True, state
+        if seq is not None:
+            if isinstance(node.slice, ast.Slice):
+                from .model import fold, NotConst
 
-            try:
-                lo, hi, st = [None if b is None else fold(b) for b in (node.slice.lower, node.slice.upper, node.slice.step)]
-            except NotConst:
-                return TOP, False
-            if all(b is None or (isinstance(b, int) and not isinstance(b, bool)) for b in (lo, hi, st)) and st != 0:
-                return TupleV(objval.items[slice(lo, hi, st)]), False
-            return TOP, False
-        if isinstance(objval, TupleV) and isinstance(idxval, Const) and isinstance(idxval.v, int) and not isinstance(idxval.v, bool):
-            if -len(objval.items) <= idxval.v < len(objval.items):
-                return objval.items[idxval.v], False
-            return NOVALUE, "IndexError"
-        return None
+                try:
+                    lo, hi, stp = [None if b is None else fold(b) for b in (node.slice.lower, node.slice.upper, node.slice.step)]
+                except NotConst:
+                    return TOP, False, state
+                if all(b is None or (isinstance(b, int) and not isinstance(b, bool)) for b in (lo, hi, stp)) and stp != 0:
+                    part = TupleV(tuple(seq[slice(lo, hi, stp)]))
+                    if isinstance(objval, Ref):
+                        v, st = self.alloc(state, node, "list", part)
+                        return v, False, st
+                    return part, False, state
+                return TOP, False, state
+            if isinstance(idxval, Const) and isinstance(idxval.v, int) and not isinstance(idxval.v, bool):
+                if -len(seq) <= idxval.v < len(seq):
+                    return seq[idxval.v], False, state
+                return NOVALUE, "IndexError", state
+            return TOP, True, state
+        v, may = self.subscript_load(objval, idxval, node, state)
+        return v, may, state
 
     def subscript_store(self, objval, idxval, value, node, state):
-        if isinstance(objval, DictV) and isinstance(node.value, ast.Name):
-            return self.name_store(node.value.id, dict_set(objval, idxval, value), state, node)
-        if isinstance(objval, TupleV) and isinstance(node.value, ast.Name):
-            return self.name_store(node.value.id, TOP, state, node)
+        if isinstance(objval, Ref):
+            cont = content(objval, state)
+            if cont is None:
+                return state
+            if objval.kind == "list":
+                if value is not None and isinstance(idxval, Const) and isinstance(idxval.v, int) and -len(cont.items) <= idxval.v < len(cont.items):
+                    lst = list(cont.items)
+                    lst[idxval.v] = value
+                    return self.put(state, objval, TupleV(tuple(lst)))
+                return self.put(state, objval, TOP)
+            if value is None:  # del d[k]
+                return self.put(state, objval, dict_del(cont, idxval))
+            return self.put(state, objval, dict_set(cont, idxval, value))
         return super().subscript_store(objval, idxval, value, node, state)
 
     # ---- iteration -------------------------------------------------------------------------------
     def _seq(self, itval, state=None):
         if isinstance(itval, TupleV):
             return itval.items
+        if isinstance(itval, Ref):
+            c = content(itval, state) if state is not None else None
+            if c is None:
+                return None
+            return c.items if isinstance(c, TupleV) else tuple(k for k, v in c.items)
         if isinstance(itval, DictV):
             return tuple(k for k, v in itval.items)
         if isinstance(itval, Const) and isinstance(itval.v, (tuple, list)):
@@ -267,7 +515,7 @@ class ExactCollections:
     def for_next(self, node, itval, state):
         key = ("iter", node.lineno, getattr(node, "col_offset", 0))
         midway = isinstance(state.get(key, None), int) and not isinstance(node, ast.comprehension)
-        seq = self._seq(itval, None if midway else state)
+        seq = self._seq(itval, state) if not (midway and isinstance(itval, GenV)) else itval.items
         if seq is None:
             # an iterable whose elements are not known: whatever is counted or collected in this loop is a guess
             res = super().for_next(node, itval, state)
@@ -286,7 +534,7 @@ class ExactCollections:
     def for_exhausted(self, node, itval, state):
         key = ("iter", node.lineno, getattr(node, "col_offset", 0))
         midway = isinstance(state.get(key, None), int)
-        seq = self._seq(itval, None if midway else state)
+        seq = self._seq(itval, state) if not (midway and isinstance(itval, GenV)) else itval.items
         if seq is None:
             res = super().for_exhausted(node, itval, state)
             return self.mark_imprecise(res, node) if res is not None else None
@@ -294,19 +542,20 @@ class ExactCollections:
             return None
         return state.drop(key) if state.has(key) else state
 
-    def comprehension(self, node, elem_values, state):
+    def comprehension_s(self, node, elem_values, state):
         if not self.comp_exact:
-            return TOP
-        gens = node.generators
-        if not all(self._seq(getattr(g, "_itval", None)) is not None for g in gens):
-            return TOP
+            return TOP, state
+        for g in node.generators:
+            iv = getattr(g, "_itval", None)
+            if iv is None or (self._seq(iv, state) is None and not isinstance(iv, GenV)):
+                return TOP, state
         if isinstance(node, ast.DictComp):
             d = DictV(())
             for k, v in elem_values:
                 d = dict_set(d, k, v) if d is not TOP else TOP
-            return d
+            return self.alloc(state, node, "dict", d)
         if isinstance(node, ast.ListComp):
-            return TupleV(tuple(v[0] for v in elem_values))
+            return self.alloc(state, node, "list", TupleV(tuple(v[0] for v in elem_values)))
         if isinstance(node, ast.GeneratorExp):
-            return GenV((node.lineno, node.col_offset), tuple(v[0] for v in elem_values))
-        return TOP
+            return GenV((node.lineno, node.col_offset), tuple(v[0] for v in elem_values)), state
+        return TOP, state
